@@ -128,3 +128,29 @@ M("c04-recv-latin1", "C04", ("_core", '                return data_received.deco
 M("c04-recv-binary-decoded", "C04", ("_core", "            data_binary: bytes = data\n            return data_binary", "            data_binary: bytes = data\n            return data_binary.decode('utf-8')"), ["R-C04-5"])
 M("c04-close-resets-buffer", "C04", ("_core", "                self.send_close()\n                return frame.opcode, frame", "                self.send_close()\n                self.cont_frame.cont_data = None\n                return frame.opcode, frame"), ["R-C04-1"])
 M("c04-spec-add-rewritten", "C04", ("_abnf", "            self.cont_data[1] += frame.data", "            self.cont_data[1] = self.cont_data[1] + frame.data"), expect="silent")
+
+# ------------------------------------------------------------------ C08
+M("c08-revert-fix-reply-guard", "C08", ("_core", "                if self.connected:\n                    self.send_close()", "                if True:\n                    self.send_close()"), ["R-C08-3"], expect="silent")  # send_close itself refuses now: raises instead of a 2nd frame
+M("c08-revert-fix-send-close-guard", "C08", ("_core", "        if not self.connected:\n            # RFC 6455 5.5.1: an endpoint sends at most one close frame\n            raise WebSocketConnectionClosedException(", "        if False:\n            # RFC 6455 5.5.1: an endpoint sends at most one close frame\n            raise WebSocketConnectionClosedException("), ["R-C08-3"])
+M("c08-revert-both-close-guards", "C08", [("_core", "                if self.connected:\n                    self.send_close()", "                if True:\n                    self.send_close()"),
+                                          ("_core", "        if not self.connected:\n            # RFC 6455 5.5.1: an endpoint sends at most one close frame\n            raise WebSocketConnectionClosedException(", "        if False:\n            # RFC 6455 5.5.1: an endpoint sends at most one close frame\n            raise WebSocketConnectionClosedException(")], ["R-C08-3"])
+M("c08-revert-fix-close-release", "C08", ("_core", "            # close): still release the transport\n            self.shutdown()\n            return", "            # close): still release the transport\n            return"), ["R-C08-5"])
+M("c08-status-gt-length16", "C08", ("_core", "        if status < 0 or status >= ABNF.LENGTH_16:\n            raise ValueError(\"code is invalid range\")\n\n        try:", "        if status < 0 or status > ABNF.LENGTH_16:\n            raise ValueError(\"code is invalid range\")\n\n        try:"), ["R-C08-1"])
+M("c08-status-negative-ok", "C08", ("_core", "        if status < 0 or status >= ABNF.LENGTH_16:\n            raise ValueError(\"code is invalid range\")\n        if not self.connected:", "        if status >= ABNF.LENGTH_16:\n            raise ValueError(\"code is invalid range\")\n        if not self.connected:"), ["R-C08-1"])
+M("c08-connected-false-before-check", "C08", ("_core", "        if status < 0 or status >= ABNF.LENGTH_16:\n            raise ValueError(\"code is invalid range\")\n        if not self.connected:\n            # RFC", "        was = self.connected\n        self.connected = False\n        if status < 0 or status >= ABNF.LENGTH_16:\n            raise ValueError(\"code is invalid range\")\n        self.connected = was\n        if not self.connected:\n            # RFC"), ["R-C08-1"], expect="violation")
+M("c08-close-little-endian", "C08", ("_core", "            self.connected = False\n            self.send(struct.pack(\"!H\", status) + reason, ABNF.OPCODE_CLOSE)", "            self.connected = False\n            self.send(struct.pack(\"<H\", status) + reason, ABNF.OPCODE_CLOSE)"), ["R-C08-2"])
+M("c08-close-reason-first", "C08", ("_core", "            self.connected = False\n            self.send(struct.pack(\"!H\", status) + reason, ABNF.OPCODE_CLOSE)", "            self.connected = False\n            self.send(reason + struct.pack(\"!H\", status), ABNF.OPCODE_CLOSE)"), ["R-C08-2"])
+M("c08-close-no-connected-test", "C08", ("_core", "        if not self.connected:\n            # the closing handshake", "        if False:\n            # the closing handshake"), ["R-C08-3", "R-C08-5"])
+M("c08-recv-no-close-on-loss", "C08", ("_core", "        except WebSocketConnectionClosedException:\n            if self.sock:\n                self.sock.close()\n            self.sock = None", "        except WebSocketConnectionClosedException:\n            self.sock = None"), ["R-C08-4"])
+M("c08-recv-keeps-connected", "C08", ("_core", "            self.sock = None\n            self.connected = False\n            raise", "            self.sock = None\n            raise"), ["R-C08-4"])
+M("c08-recv-timeout-drops", "C08", [("_core", "        except WebSocketConnectionClosedException:\n            if self.sock:", "        except WebSocketException:\n            if self.sock:"),
+                                    ("_core", "from ._exceptions import WebSocketProtocolException, WebSocketConnectionClosedException", "from ._exceptions import WebSocketProtocolException, WebSocketConnectionClosedException, WebSocketException")], ["R-C08-4"])
+M("c08-shutdown-no-close", "C08", ("_core", "        if self.sock:\n            self.sock.close()\n            self.sock = None\n            self.connected = False", "        if self.sock:\n            self.sock = None\n            self.connected = False"), ["R-C08-4", "R-C08-5"])
+M("c08-close-skips-shutdown", "C08", ("_core", "        except:\n            pass\n\n        self.shutdown()", "        except:\n            return\n\n        self.shutdown()"), ["R-C08-5"])
+M("c08-socket-send-none-unchecked", "C08", ("_socket", "    if not sock:\n        raise WebSocketConnectionClosedException(\"socket is already closed.\")\n\n    def _send():", "    def _send():"), ["R-C08-6"])
+M("c08-direct-recv", "C08", ("_core", "        return self.frame_buffer.recv_frame()", "        self.sock.recv(0)\n        return self.frame_buffer.recv_frame()"), ["R-C08-6"])
+M("c08-connected-true-early", "C08", ("_core", "        self.sock_opt.timeout = options.get(\"timeout\", self.sock_opt.timeout)\n        self.sock, addrs = connect(", "        self.sock_opt.timeout = options.get(\"timeout\", self.sock_opt.timeout)\n        self.connected = True\n        self.sock, addrs = connect("), ["R-C08-6"])
+M("c08-wait-except-continue", "C08", ("_core", "                    break\n                except:\n                    break", "                    break\n                except:\n                    continue"), ["R-C08-7"])  # with timeout=None an error from the transport would spin forever
+M("c08-wait-no-time-bound", "C08", ("_core", "            while timeout is None or time.time() - start_time < timeout:", "            while True:"), ["R-C08-7"])
+M("c08-wait-no-settimeout", "C08", ("_core", "            self.sock.settimeout(timeout)\n            start_time", "            start_time"), ["R-C08-7"])
+M("c08-spec-close-guard-rewritten", "C08", ("_core", "        if status < 0 or status >= ABNF.LENGTH_16:\n            raise ValueError(\"code is invalid range\")\n\n        try:", "        if not 0 <= status <= 0xFFFF:\n            raise ValueError(\"code is invalid range\")\n\n        try:"), expect="silent")
